@@ -361,7 +361,7 @@ func doCheck(bin, prop string, pc propCfg, tier string, seed uint64, scratch str
 			defer wg.Done()
 			cfg := &sim.WorkerCfg{Prop: prop, Tier: tier, MasterSeed: seed, Worker: w, Workers: workers, MaxRuns: per,
 				BudgetS: tc.BudgetS, MinimiseS: tc.MinimiseS, Known: knownFPs, ReplayDir: replayDir}
-			outs[w], msgs[w] = runWorker(bin, cfg, scratch, gmp[w%len(gmp)], time.Duration((tc.BudgetS+tc.MinimiseS*4+300)*float64(time.Second)))
+			outs[w], msgs[w] = runWorker(bin, cfg, scratch, gmp[w%len(gmp)], time.Duration((tc.BudgetS*1.5+tc.MinimiseS*4+120)*float64(time.Second)))
 		}(w)
 	}
 	wg.Wait()
@@ -472,24 +472,24 @@ func doCheck(bin, prop string, pc propCfg, tier string, seed uint64, scratch str
 	}
 	// 5. evidence
 	cov := map[string]any{
-		"evaluations":         agg.Runs,
-		"distinct_nontrivial": len(shapes),
-		"rule":                pc.Rule,
-		"samples":             agg.Samples,
-		"nontrivial_runs":     agg.Nontrivial,
-		"steps_executed":      agg.Steps,
-		"simulated_seconds":   float64(agg.SimNanos) / 1e9,
-		"distinct_abstract_states": len(states),
-		"runs_per_hour":       float64(agg.Runs) / wall * 3600,
-		"workers":             workers,
-		"counters":            agg.Counters,
-		"components":          pc.Components,
-		"overlay_files":       nOverlay,
-		"known_findings_reproduced": kfs,
-		"known_findings_not_reproduced": knownStale,
-		"aborted_samples":     agg.Aborted,
+		"evaluations":                     agg.Runs,
+		"distinct_nontrivial":             len(shapes),
+		"rule":                            pc.Rule,
+		"samples":                         agg.Samples,
+		"nontrivial_runs":                 agg.Nontrivial,
+		"steps_executed":                  agg.Steps,
+		"simulated_seconds":               float64(agg.SimNanos) / 1e9,
+		"distinct_abstract_states":        len(states),
+		"runs_per_hour":                   float64(agg.Runs) / wall * 3600,
+		"workers":                         workers,
+		"counters":                        agg.Counters,
+		"components":                      pc.Components,
+		"overlay_files":                   nOverlay,
+		"known_findings_reproduced":       kfs,
+		"known_findings_not_reproduced":   knownStale,
+		"aborted_samples":                 agg.Aborted,
 		"fixed_defect_regression_replays": regressionsReplayed,
-		"exhaustive":          false,
+		"exhaustive":                      false,
 	}
 	if len(agg.Samples) == 0 {
 		cov["samples"] = []any{"no sample recorded"}
